@@ -6,8 +6,8 @@ From updog Require Import Conc LockPolicy.
 From Gen Require Import LockFacts.
 Local Open Scope list_scope.
 
-Definition funs_mem := restrict funs_C18_mem gen_funs.
-Definition funs_big := restrict funs_C18_big gen_funs.
+Definition funs_mem := reachable_funs policy_C18_mem gen_funs ["IndexWriter.AddRow"].
+Definition funs_big := reachable_funs policy_C18_big gen_funs ["BigIndexWriter.AddRow"].
 Definition addrow_mem := gen_entry "IndexWriter.AddRow".
 Definition addrow_big := gen_entry "BigIndexWriter.AddRow".
 
